@@ -83,7 +83,14 @@ impl Vm {
                 return Err(ParserState::new(state.position().line_of()));
             }
         }
-        match rule {
+        // A grammar may define its own rule under the name of a non-keyword built-in
+        // (`ASCII_*`, `NEWLINE`); like the generated parser, prefer the grammar's rule.
+        let builtin = if self.rules.contains_key(rule) {
+            ""
+        } else {
+            rule
+        };
+        match builtin {
             "ANY" => return state.skip(1),
             "EOI" => return state.rule("EOI", |state| state.end_of_input()),
             "SOI" => return state.start_of_input(),
